@@ -119,6 +119,18 @@ CHECKS['C12'] = dict(
     technique="Coq frame theorem over effect footprints regenerated from the source + history-vs-fresh-process differential runs",
     design="6.C12")
 
+CHECKS['C11'] = dict(
+    text="Cnl/Blocks.v models how the transformer groups sentences into Problems (start / specification / PROBLEM_IDENTIFIER) and how "
+         "Problems are printed, parametric in the sentence type and in the rules a sentence produces. Coq theorems for every "
+         "specification (any number of blocks, headers in any order and repetition, any sentence forms): every rule appears exactly once "
+         "in sentence order (C11_order), the named parts are exactly the headers' parts in order (C11_routing), deleting all headers leaves "
+         "the same rules under no directive (C11_headers_erasable); the header -> part-name table is regenerated from /repo. Tie: byte-exact "
+         "correspondence of the model's text with the implementation's on generated block-structured specifications, the per-sentence rules "
+         "taken from prefix compilations; oracle: directives vs headers and rules vs header-free compilation on the implementation.",
+    note="Trusted: Coq kernel; Lark's parse of header lines and its (ambiguous but rule-neutral) grouping of header-free sentences; prefix attribution of rules (C10).",
+    technique="Coq proof over a parametric block-routing model + generated header table + byte-exact correspondence",
+    design="6.C11")
+
 NOT_YET = {}
 
 
